@@ -343,3 +343,43 @@ def effects_bounded(ni: int, again: bool) -> None:
         k = len(_ACCESS)
     assert k < n, "%r under budget %d: %d lambda-body evaluations reached host data (each is at least one operation)" % (text, n, k)
     hlib.done()
+
+
+# ---- the state an aborted run leaves behind is a state the unbounded run passes through --------------------------------
+PREFIX_PROGS = [
+    ["x = 1", "t(1)", "y = x + 1", "notes.push(y)", "t(2)", "z = [x, y]", "notes.push(z)", "t(3)"],
+    ["acc = 0", "acc += a", "t(acc)", "d['k'] = acc", "acc += 1", "t(acc)", "d['j'] = [acc]"],
+    ["f = v => t(v)", "r = [1, 2] | map(f)", "s = r | len", "notes.push(s)"],
+]
+
+
+def abort_prefix(pi: int, n: int) -> None:
+    """
+    pre: 0 <= pi < 3 and 1 <= n <= 60
+    post: True
+    """
+    hlib.enter(locals())
+    pi, n = hlib.concrete(pi, 0, 2), hlib.concrete(n, 1, 60)
+    with hlib.native():
+        prog = PREFIX_PROGS[pi]
+
+        def fresh():
+            p = Probe()
+            return {'t': p, 'notes': [], 'd': {}, 'a': 5}, p
+
+        def observe(nm, p):
+            return repr(sorted((k, v) for k, v in nm.items() if k not in ('t', 'f'))), list(p.log), ('f' in nm)
+        states = []
+        for k in range(len(prog) + 1):
+            nm, p = fresh()
+            run_eval("\n".join(prog[:k]), nm, 10**6)
+            states.append(observe(nm, p))
+        nm, p = fresh()
+        out = run_eval("\n".join(prog), nm, n)
+        seen = observe(nm, p)
+        aborted = out[0] == 'err' and out[1] is OpsLimit
+        # statements are atomic here except for the probe calls inside map: the log may run ahead of the names
+        ok = seen in states or (pi == 2 and aborted and any(seen[0] == s[0] and seen[2] == s[2] and s[1][:len(seen[1])] == seen[1] or
+                                                          (seen[0] == s[0] and seen[2] == s[2] and seen[1][:len(s[1])] == s[1]) for s in states))
+    assert ok, "budget %d: the state left behind %r is not a state the unbounded run passes through" % (n, seen)
+    hlib.done()
